@@ -198,6 +198,9 @@ pub fn generate(seed: u64, n: usize, _thorough: bool, _corpus: Option<&str>) -> 
     // fixed-size blocks with their OWN generators (independent of how much randomness the streams above consume)
     let mut rg = Rng::new(seed ^ 0x6a9d_0055_u64).fork();
     for k in 0..(if n >= 2000 { n / 16 } else { GAP_BLOCK }) { out.push(gap_doors(&mut rg, k)); }
+    // scripted linear histories: the call patterns whose ORDER matters, every run
+    let mut rh = Rng::new(seed ^ 0x5c217_7ed_u64).fork();
+    for k in 0..(if n >= 2000 { n / 12 } else { 36 }) { out.extend(history_cases_with(&mut rh, Some(k))); }
     // the TRUTH TABLES of every connective through the method / operator forms, twice (the receiver form - bare handle or
     // expression - is drawn per probe): 12 connective shapes x 8 value pairs x 3
     let mut rt = Rng::new(seed ^ 0x7ab1e_u64).fork();
@@ -648,9 +651,11 @@ impl Hist {
             }
         }
     }
-    fn step(&mut self, r: &mut Rng) {
+    fn step(&mut self, r: &mut Rng) { let k = r.below(11); self.step_kind(r, k) }
+    /// 0-2 add_var, 3-4 add_vars, 5-7 with, 8 with_all, 9 maximize / minimize, 10 satisfy
+    fn step_kind(&mut self, r: &mut Rng, kind: usize) {
         let pool = ["x", "y", "z", "x_0", "x_1", "y_1", "w"];
-        match r.below(11) {
+        match kind {
             0..=2 => {
                 let name = r.pick(&pool).to_string();
                 let ty = hist_type(r, self.linear);
@@ -733,13 +738,24 @@ fn random_milp(r: &mut Rng) -> MILPValue {
     match r.below(3) { 0 => MILPValue::Bool(r.chance(1, 2)), 1 => MILPValue::Int(r.range(-4, 9) as i32), _ => MILPValue::Real(r.range(-20, 20) as f64 / 4.0) }
 }
 
-fn history_cases(r: &mut Rng) -> Vec<Case> {
-    let linear = r.chance(2, 5);
+fn history_cases(r: &mut Rng) -> Vec<Case> { history_cases_with(r, None) }
+
+/// `script = Some(k)`: a LINEAR history that ends with a fixed call pattern - objective then `satisfy` / `satisfy` then objective
+/// (the last call must win), `with` then `with_all` and `with_all` then `with` (appending, in call order, repeated names),
+/// two objectives in a row, an `add_vars` family after constraints
+fn history_cases_with(r: &mut Rng, script: Option<usize>) -> Vec<Case> {
+    let linear = script.is_some() || r.chance(2, 5);
     let mut h = Hist { b: ModelBuilder::new(), minted: vec![], ops: vec![], outs: vec![], tags: vec!["history".into()], cnames: vec![], linear, div_by_var: false, abs_cons: vec![], abs_obj: None };
     if linear { h.tag("linear-history"); }
     let span = if r.chance(1, 6) { 24 } else { 9 };
     let n = 2 + r.below(span);
+    if script.is_some() { h.step_kind(r, 0); h.step_kind(r, 3); }
     for _ in 0..n { h.step(r); }
+    if let Some(k) = script {
+        h.tag("scripted-history");
+        let tail: &[usize] = match k % 6 { 0 => &[9, 10], 1 => &[10, 9], 2 => &[5, 8, 8], 3 => &[8, 5, 8], 4 => &[9, 9, 5], _ => &[5, 9, 10, 8] };
+        for kind in tail { h.step_kind(r, *kind); }
+    }
     if h.ops.len() >= 12 { h.tag("long-history"); }
     let model = std::panic::catch_unwind(std::panic::AssertUnwindSafe(|| h.b.clone().into_model()));
     let model_sx = match &model { Ok(m) => sx_rmodel(m), Err(_) => { h.tag("index-panic"); "(index-panic)".to_string() } };
